@@ -186,7 +186,7 @@ Proof.
   - apply andb_true_iff in Hn as [Hne Hn]. unfold batch_write, v1_empty_batch.
     assert ((match c_failure c with Some _ => false | None => match reqs with [] => true | _ :: _ => false end end) = false) as ->
       by (destruct (c_failure c); auto; destruct reqs; [discriminate|reflexivity]).
-    unfold batch_write_core. destruct (_ && negb (forallb wreq_ok (flat_map snd reqs))); auto.
+    unfold batch_write_core. destruct (forced_blocks c); auto. destruct (_ && negb (forallb wreq_ok (flat_map snd reqs))); auto.
     destruct (_ && (batch_limit <? List.length (flat_map snd reqs))); auto.
     destruct (match c_failure c with Some _ => [] | None => flat_map (prevalidate_table c) reqs end); auto.
     destruct (batch_tables_flav reqs c [] Hn) as [E1 E2].
